@@ -261,7 +261,6 @@ func (ex *Exec) convert(st *State, in *ssa.Convert) Value {
 		}
 		// []rune
 		n := app(SInt, "str_runecount", x)
-		ex.d.declFun("str_runes", []string{SStr}, arraySort(SInt, SInt))
 		st.assume(eq(arr, app(arraySort(SInt, SInt), "str_runes", x)))
 		ex.setHeap(st, name, sto(h, base, arr))
 		return mkSlc(base, intLit(0), n, n)
@@ -273,8 +272,6 @@ func (ex *Exec) convert(st *State, in *ssa.Convert) Value {
 		if kindOfType(et) == 8 {
 			return app(SStr, "arr2str", arr, sOff(x), sLen(x))
 		}
-		ex.d.declFun("runes2str", []string{arraySort(SInt, SInt), SInt, SInt}, SStr)
-		ex.d.declFun("str_runes", []string{SStr}, arraySort(SInt, SInt))
 		ex.d.axiom("runes2str", `(assert (forall ((s Str) (a Int) (b Int)) (! (=> (and (<= 0 a) (<= a b) (<= b (str_runecount s))) (and (= (str_runecount (runes2str (str_runes s) a (- b a))) (- b a)) (<= (str_len (runes2str (str_runes s) a (- b a))) (str_len s)))) :pattern ((runes2str (str_runes s) a (- b a))))))
 (assert (forall ((s Str)) (! (= (runes2str (str_runes s) 0 (str_runecount s)) s) :pattern ((str_runes s)))))`)
 		return app(SStr, "runes2str", arr, sOff(x), sLen(x))
